@@ -71,6 +71,11 @@ impl Rng {
             xs.swap(i, j);
         }
     }
+    /// Random bytes with a length of `lo + below(span)`.
+    pub fn bytes_span(&mut self, lo: usize, span: usize) -> Vec<u8> {
+        let n = lo + self.usize(span.max(1));
+        self.bytes(n)
+    }
     pub fn bytes(&mut self, n: usize) -> Vec<u8> {
         (0..n).map(|_| self.u64() as u8).collect()
     }
@@ -403,6 +408,12 @@ pub fn conclude(check: &Check, tier: Tier, seed: u64, report: Report, wall: Dura
         println!("  what: {}", truncate(&v.what, 1500));
         replay_paths.push(path);
         if replay_paths.len() >= 10 { break }
+    }
+    if !fresh.is_empty() {
+        let mut by_sig: BTreeMap<&str, u64> = BTreeMap::new();
+        for v in &fresh { *by_sig.entry(v.signature.as_str()).or_insert(0) += 1; }
+        println!("  violation signatures ({} distinct):", by_sig.len());
+        for (s, n) in &by_sig { println!("    {n:>5}  {s}"); }
     }
     let distinct = report.classes.len() as u64;
     let mut samples = report.samples.clone();
